@@ -140,6 +140,22 @@ def gen_project(seed, tag):
                 prev = idx
             chain_head = prev
         n_funcs = rng.randint(3, 4) if chain_head is not None else rng.randint(2, 4)
+        # a helper without parameters and without statements (docstring-only / empty braces; `pass` / `return` as controls):
+        # functions call it BETWEEN taking their parameter and the sink
+        noop = None
+        if rng.random() < 0.6:
+            variant = rng.choice(["docstring-only", "docstring-only", "pass-only"] if lang == "python" else ["empty-braces", "empty-braces", "return-only"])
+            nm0 = fresh("noop")
+            if lang == "python":
+                out.append(f"def {nm0}():")
+                line0 = len(out)
+                out.append('    """does nothing"""' if variant == "docstring-only" else "    pass")
+            else:
+                out.append(f"function {nm0}() {{}}" if variant == "empty-braces" else f"function {nm0}() {{ return; }}")
+                line0 = len(out)
+            noop = len(methods)
+            methods.append({"file": rel, "lang": lang, "name": nm0, "line": line0, "sink_line": None, "param_line": None, "attrs": [],
+                            "cls": None, "calls": [], "role": "empty-helper", "variant": variant})
         names = []
         base = os.path.basename(rel)
         for j in range(n_funcs):
@@ -174,6 +190,9 @@ def gen_project(seed, tag):
             if lang == "python":
                 out.append(f"def {nm}(tsrc):")
                 line = len(out)
+                before = noop if noop is not None and rng.random() < 0.55 else None
+                if before is not None:
+                    out.append(f"    {methods[before]['name']}()")
                 out.append("    tsnk(tsrc)")
                 sink = len(out)
                 if callee is not None:
@@ -193,6 +212,9 @@ def gen_project(seed, tag):
             else:
                 out.append(f"function {nm}(tsrc) {{")
                 line = len(out)
+                before = noop if noop is not None and rng.random() < 0.55 else None
+                if before is not None:
+                    out.append(f"    {methods[before]['name']}();")
                 out.append("    tsnk(tsrc);")
                 sink = len(out)
                 if callee is not None:
@@ -202,7 +224,9 @@ def gen_project(seed, tag):
                 out.append(f"    return {j + 1};")
                 out.append("}")
             methods.append({"file": rel, "lang": lang, "name": nm, "line": line, "sink_line": sink, "param_line": line,
-                            "attrs": [f"{a}_{tag}" for a in attrs], "cls": None, "calls": [callee] if callee is not None else [],
+                            "attrs": [f"{a}_{tag}" for a in attrs], "cls": None,
+                            "calls": ([callee] if callee is not None else []) + ([before] if before is not None else []),
+                            "empty_call_before_sink": methods[before]["variant"] if before is not None else None,
                             "tcalls": [tcall] if tcall is not None else [], "role": "function"})
             mlist.append(idx)
             if nested is not None:
@@ -580,12 +604,14 @@ def analyse(job):
     if live != set(started):
         res["fails"].append((f"{cls}:start-set:loader-entry-points-differ-from-actual-starts",
                              f"loader.get_entry_points() = {sorted(live)}, P3 started from {sorted(set(started))}", case))
+    # a method without any statement (docstring-only body, `{}`) has nothing to analyse: being started is all that can be demanded
+    statementless = {g for i_, g in method_gid.items() if g is not None and project["methods"][i_].get("variant") in ("docstring-only", "empty-braces")}
     # console lines: an entry's analysis starts with its own `Analyzing <method id ...>` line at stack depth 1
     if log is not None and mark in log:
         seg = log.split(mark, 1)[1]
         analysed_console = [int(x) for x in re.findall(r"^Analyzing <method (\d+) name:", seg, flags=re.M)]
         res["console_checked"] = len(analysed_console)
-        miss = [g for g in set(started) if g not in analysed_console]
+        miss = [g for g in set(started) if g not in analysed_console and g not in statementless]
         if miss:
             res["fails"].append((f"{cls}:start-set:console-lacks-analyzing-line-for-a-start",
                                  f"no `Analyzing <method ..>` line for started entries {[describe(g) for g in miss]}", case))
@@ -609,6 +635,9 @@ def analyse(job):
             res["extern_selected"] += 1
         if d["role"].endswith("unit-init"):
             res["unit_init_selected"] += 1
+        if gid in statementless:
+            res["statementless_selected"] = res.get("statementless_selected", 0) + 1
+            continue
         if not ok:
             res["fails"].append((f"{cls}:selected-entry-not-analysed[{d['role']}]",
                                  f"{describe(gid)} was taken as a start but its own frame is {fr}", case))
@@ -685,6 +714,8 @@ def analyse(job):
     started_order = [g for g in started if g in gid_method]
     n_chain = sum(1 for v_ in exp_flows.values() if v_[0] == "chain")
     res["chain_flows_expected"] = n_chain
+    res["flows_behind_empty_call"] = sum(1 for k_, v_ in exp_flows.items() if v_[0] == "own" and
+                                         project["methods"][v_[1]].get("empty_call_before_sink") in ("docstring-only", "empty-braces"))
     res["entries_sharing_a_chain"] = sum(1 for g in set(started) if g in gid_method and project["methods"][gid_method[g]].get("tcalls"))
     for k in sorted(set(exp_flows) - obs):
         how, i = exp_flows[k]
@@ -725,6 +756,8 @@ def analyse(job):
                                  f"{m['name']} is reachable from an entry P3 started from (it is start no. {nth} of {len(started)}; "
                                  f"{res['entries_sharing_a_chain']} starts share such a chain) but taint_data_flow.json has no such flow", case))
         else:
+            if m.get("empty_call_before_sink"):
+                where += f"-behind-call-of-{m['empty_call_before_sink']}-function"
             res["fails"].append((f"{cls}:flow-missing-in-{where}[{m['lang']}:{m['role']}]",
                                  f"{m['file']}: parameter tsrc of {m['name']} (line {k[1]}) -> tsnk (line {k[2]}) is reachable from an entry P3 started from "
                                  f"but taint_data_flow.json has no such flow (it has {len(obs)})", case))
@@ -788,6 +821,8 @@ def validate_reach_python(project, root, expected, reach):
             mod = mods[m["file"]]
             if m["cls"]:
                 getattr(getattr(mod, m["cls"])(), m["name"])(0)
+            elif m["role"] == "empty-helper":
+                getattr(mod, m["name"])()
             else:
                 getattr(mod, m["name"])(0)
     except BaseException as e:      # noqa
@@ -864,6 +899,8 @@ def main():
         chk.count("selected unit initialisers", v["unit_init_selected"])
         chk.count("embedded flows expected (reachable from a selected entry)", v["flows_expected"])
         chk.count("flows expected from an entry parameter through a shared helper -> leaf chain", v["chain_flows_expected"])
+        chk.count("flows expected behind a call of a statement-less function (docstring-only / empty braces)", v.get("flows_behind_empty_call", 0))
+        chk.count("selected statement-less methods (started, nothing to analyse)", v.get("statementless_selected", 0))
         if v["entries_sharing_a_chain"] >= 3:
             chk.count("runs with >= 3 started methods that hand their parameter down a shared call chain", 1)
         if v["same_base_name_files"] > 0:
@@ -902,6 +939,7 @@ def main():
         chk.require("embedded flows expected (reachable from a selected entry)", 150 * k)
         chk.require("flows read from taint_data_flow.json", 100 * k)
         chk.require("runs in which the rules select nothing", 10)
+        chk.require("flows expected behind a call of a statement-less function (docstring-only / empty braces)", 80 * k)
         chk.require("flows expected from an entry parameter through a shared helper -> leaf chain", 100 * k)
         chk.require("runs with >= 3 started methods that hand their parameter down a shared call chain", 25 * k)
         chk.require("runs over a project with same-base-name files in different directories", 60 * k)
@@ -916,6 +954,8 @@ def main():
         "file lian analyses, i.e. the workspace copy), method-name membership, attribute inclusion; a rule selects a method iff "
         "every restriction it states holds; the rule sets are the union of every *entry.yaml under the settings directory",
         "a file has a unit initialiser iff it has top-level code other than declarations and imports",
+        "a selected method whose body has no statement at all (docstring-only, `{}`) must be among the starts, but there is nothing of "
+        "it to analyse; everything BEHIND a call of such a function must still be analysed (flows behind the call are demanded)",
         "attribute names in the workload are chosen so that none is a substring of another",
         "reachability comes from the generator's call structure (direct calls by name inside one file), validated against CPython "
         "for the Python files; JavaScript reachability is the generator's closure only",
